@@ -132,6 +132,7 @@ func hcDrawPlan(rt *rapid.T, focus string) *hcPlan {
 		p.strict = vs.Pct(c, 30)
 		p.initMCS = vs.Pick(c, -1, -1, 1, 2, 5)
 		nreq = vs.Range(c, 1, 8)
+		p.autoFrom = vs.Pick(c, 1, 1, 2) // sometimes the second connection is scripted (and may send GOAWAY) too
 		postPct, maxBody = 60, 20000
 	}
 	for i := 0; i < nreq; i++ {
@@ -233,7 +234,7 @@ func hcDrawPlan(rt *rapid.T, focus string) *hcPlan {
 		// a connection close at an arbitrary later position
 		ng := vs.Pick(c, 1, 1, 2)
 		for g := 0; g < ng; g++ {
-			op := hcOp{kind: "goaway", sel: 0, decl: -1, iw: -1, mf: -1, mcs: -1}
+			op := hcOp{kind: "goaway", sel: vs.Pick(c, 0, 0, 1), decl: -1, iw: -1, mf: -1, mcs: -1}
 			op.lmode = vs.Pick(c, "abs", "seen", "below", "max")
 			op.labs = vs.Range(c, 0, 2*nreq+4)
 			op.code = ErrCode(vs.Pick(c, 0, 0, 2, 11, 1))
@@ -427,6 +428,10 @@ type hcConn struct {
 	mon  *vmParser
 	auto bool
 
+	base    []byte
+	sbase   []int
+	pmu     sync.Mutex
+	pending []*vmFrame
 	frames  []*vmFrame
 	nKnown  int
 	streams map[uint32]*hcStream
@@ -617,6 +622,57 @@ func (cn *hcConn) writeGoAway(last uint32, code ErrCode) {
 	}
 }
 
+// tap feeds the wire monitor with what the client writes. Frames are split off
+// at once and the parser's buffers are recycled, so that they never grow beyond
+// one write (the parser keeps one int per buffered byte).
+func (cn *hcConn) tap(b []byte) {
+	m := cn.mon
+	if len(m.buf) == 0 {
+		m.buf, m.stepsBuf = cn.base[:0], cn.sbase[:0]
+	}
+	m.write(b)
+	if cap(m.buf) > cap(cn.base) && len(m.buf) == len(b) {
+		cn.base, cn.sbase = m.buf[:0], m.stepsBuf[:0]
+	}
+	cn.pmu.Lock()
+	for f := m.next(); f != nil; f = m.next() {
+		cn.pending = append(cn.pending, f)
+	}
+	cn.pmu.Unlock()
+}
+
+func (cn *hcConn) takePending() []*vmFrame {
+	cn.pmu.Lock()
+	defer cn.pmu.Unlock()
+	fs := cn.pending
+	cn.pending = nil
+	return fs
+}
+
+var (
+	hcBufMu   sync.Mutex
+	hcBufFree [][2]any
+)
+
+func hcGetBufs() ([]byte, []int) {
+	hcBufMu.Lock()
+	defer hcBufMu.Unlock()
+	if n := len(hcBufFree); n > 0 {
+		e := hcBufFree[n-1]
+		hcBufFree = hcBufFree[:n-1]
+		return e[0].([]byte), e[1].([]int)
+	}
+	return make([]byte, 0, 1<<15), make([]int, 0, 1<<15)
+}
+
+func hcPutBufs(b []byte, s []int) {
+	hcBufMu.Lock()
+	if len(hcBufFree) < 64 && cap(b) <= 1<<20 {
+		hcBufFree = append(hcBufFree, [2]any{b[:0], s[:0]})
+	}
+	hcBufMu.Unlock()
+}
+
 // windows the client has granted, as far as the server can know (delivered frames only)
 func (cn *hcConn) srvConnWindow() int64 {
 	d := cn.sc.DeliveredAB()
@@ -689,7 +745,8 @@ func (r *hcRun) dial(ctx context.Context, network, addr string, cfg *tls.Config)
 		cliIW: 65535, cliMaxFrame: 16384}
 	cn.mon = newVMParser(true, &r.step)
 	cn.mon.allowTableSize(1 << 16)
-	sc.TapAB(func(b []byte) { cn.mon.write(b) })
+	cn.base, cn.sbase = hcGetBufs()
+	sc.TapAB(cn.tap)
 	cn.fr = NewFramer(sc.B, nil)
 	cn.henc = hpack.NewEncoder(&cn.hbuf)
 	cn.sSettings = []hcSettings{{iw: 65535, mf: 16384, mcs: 1 << 31}}
@@ -876,6 +933,9 @@ func (r *hcRun) onClientFrame(cn *hcConn, f *vmFrame) *vs.Violation {
 		}
 		if len(rq.attempts) > 0 {
 			vs.G.Inc("probe.request_resent")
+			if len(rq.attempts) >= 2 {
+				vs.G.Inc("probe.request_resent_after_backoff")
+			}
 			if rq.p.post && !rq.p.getBody && len(rq.bodies) > 0 && rq.bodies[0].consumedBytes() > 0 {
 				return vs.Violf("C18", "nonreplayable_resent", "cli:nonreplayable_body_resent", "request %d has a body that cannot be replayed (no GetBody, %d bytes already consumed) but was sent again on conn %d stream %d", rq.idx, rq.bodies[0].consumedBytes(), cn.idx, sid)
 			}
@@ -1009,11 +1069,7 @@ func (r *hcRun) check() *vs.Violation {
 		return r.viol
 	}
 	for _, cn := range r.conns {
-		for {
-			f := cn.mon.next()
-			if f == nil {
-				break
-			}
+		for _, f := range cn.takePending() {
 			cn.frames = append(cn.frames, f)
 			if v := r.onClientFrame(cn, f); v != nil {
 				return v
@@ -1536,6 +1592,8 @@ func (r *hcRun) NextTimed(now time.Time) (time.Time, bool) {
 // ---------------------------------------------------------------------------
 // callers
 
+var hcReadBufs = sync.Pool{New: func() any { b := make([]byte, 1<<16); return &b }}
+
 func (r *hcRun) caller(rq *hcReq) func(tk *vs.Task) {
 	return func(tk *vs.Task) {
 		defer func() {
@@ -1591,7 +1649,9 @@ func (r *hcRun) caller(rq *hcReq) func(tk *vs.Task) {
 			resp.Body.Close()
 			return
 		}
-		buf := make([]byte, 1<<16)
+		bp := hcReadBufs.Get().(*[]byte)
+		defer hcReadBufs.Put(bp)
+		buf := *bp
 		readOnce := func(n int) error {
 			m, err := resp.Body.Read(buf[:min(n, len(buf))])
 			var v *vs.Violation
@@ -1730,6 +1790,7 @@ func hcRunOnce(t *testing.T, rt *rapid.T, focus string) {
 		time.Sleep(10 * time.Second) // let close/mark-dead timers of the transport run out
 		for _, cn := range conns {
 			cn.sc.StopTimers()
+			hcPutBufs(cn.base, cn.sbase)
 		}
 		if sim.StepsOut {
 			vs.G.Inc("run.steps_exhausted")
@@ -1954,11 +2015,11 @@ func hcTest(t *testing.T, focus string) {
 				vs.G.Add(p, 0)
 			}
 		case "C17":
-			for _, p := range []string{"probe.opened_at_limit", "probe.requests_waiting_for_slot", "probe.limit_lowered_below_open_count", "probe.pending_with_free_slot"} {
+			for _, p := range []string{"probe.opened_at_limit", "probe.requests_waiting_for_slot", "probe.limit_lowered_below_open_count"} {
 				vs.G.Add(p, 0)
 			}
 		case "C18":
-			for _, p := range []string{"probe.goaway_delivered", "probe.goaway_with_inflight_above_last", "probe.request_resent", "probe.request_retried_and_answered", "probe.covered_request_failed_with_goaway_error"} {
+			for _, p := range []string{"probe.goaway_delivered", "probe.goaway_with_inflight_above_last", "probe.request_resent", "probe.request_retried_and_answered", "probe.covered_request_failed_with_goaway_error", "probe.request_resent_after_backoff"} {
 				vs.G.Add(p, 0)
 			}
 		}
